@@ -66,6 +66,10 @@ func newPhiWalker(ctx *promotionContext) *phiWalker {
 	// Disqualify them before the walk starts: dropping a candidate only when the
 	// walk reaches the loop loses the stores already removed in front of it.
 	disqualifyLoopStored(&ctx.localPtrs, w.candidates, ctx.fn.Body)
+	// A switch case left by a `break` nested in its body reaches the merge point with
+	// the value current at the break, not the value at the end of the case; the merge
+	// phi has a single incoming per case. Keep the alloca for variables stored there.
+	disqualifyEarlyBreakStored(&ctx.localPtrs, w.candidates, ctx.fn.Body)
 	// Seed initial values from each candidate's Init or a fresh ZeroValue.
 	for v := range w.candidates {
 		w.currentValue[v] = initialValueOf(ctx, v)
@@ -388,6 +392,58 @@ func disqualifyLoopStored(ptrs *localPtr, candidates map[uint32]struct{}, block 
 			}
 		}
 	}
+}
+
+// disqualifyEarlyBreakStored removes from candidates every variable stored in a switch
+// case whose body contains a `break` below its top level (inside an if or block; a
+// break inside a nested loop or switch leaves that construct, not the case).
+func disqualifyEarlyBreakStored(ptrs *localPtr, candidates map[uint32]struct{}, block []ir.Statement) {
+	for i := range block {
+		switch sk := block[i].Kind.(type) {
+		case ir.StmtSwitch:
+			for ci := range sk.Cases {
+				body := []ir.Statement(sk.Cases[ci].Body)
+				if hasNestedBreak(body, 0) {
+					stored := make(map[uint32]struct{})
+					collectStores(ptrs, candidates, body, stored)
+					for v := range stored {
+						delete(candidates, v)
+					}
+				}
+				disqualifyEarlyBreakStored(ptrs, candidates, body)
+			}
+		case ir.StmtBlock:
+			disqualifyEarlyBreakStored(ptrs, candidates, []ir.Statement(sk.Block))
+		case ir.StmtIf:
+			disqualifyEarlyBreakStored(ptrs, candidates, []ir.Statement(sk.Accept))
+			disqualifyEarlyBreakStored(ptrs, candidates, []ir.Statement(sk.Reject))
+		case ir.StmtLoop:
+			disqualifyEarlyBreakStored(ptrs, candidates, []ir.Statement(sk.Body))
+			disqualifyEarlyBreakStored(ptrs, candidates, []ir.Statement(sk.Continuing))
+		}
+	}
+}
+
+// hasNestedBreak reports whether block contains a StmtBreak at depth > 0 that leaves
+// the enclosing switch case (nested loops and switches own their breaks).
+func hasNestedBreak(block []ir.Statement, depth int) bool {
+	for i := range block {
+		switch sk := block[i].Kind.(type) {
+		case ir.StmtBreak:
+			if depth > 0 {
+				return true
+			}
+		case ir.StmtBlock:
+			if hasNestedBreak([]ir.Statement(sk.Block), depth+1) {
+				return true
+			}
+		case ir.StmtIf:
+			if hasNestedBreak([]ir.Statement(sk.Accept), depth+1) || hasNestedBreak([]ir.Statement(sk.Reject), depth+1) {
+				return true
+			}
+		}
+	}
+	return false
 }
 
 // collectLoopStores returns the set of candidate variables that have
